@@ -288,6 +288,26 @@ def oracle(case):
                        '%s: in 3 of 3 embeddings bonds are longer than 1.4 x covalent radii (last: %d of %d, e.g. %r) while an '
                        'embedding of the same molecule built independently has none: coordinates are on the wrong atoms' % (
                            what, len(bad), ne, bad[:3]))
+    # (b') the combined entry point: embed the atoms, then map the beads
+    from cgsmiles.coordinates import embedd_cg_molecule_via_rdkit
+    cg4, g4 = cg.copy(), fine.copy()
+    try:
+        with np.errstate(all='ignore'):
+            sut(embedd_cg_molecule_via_rdkit, cg4, g4)
+    except SutError as e:
+        if not (e.type in ('ValueError', 'RuntimeError') and ('onformer' in e.msg or 'mbed' in e.msg)):
+            raise
+        note('embedding_failed_inconclusive')
+    else:
+        for k in cg4.nodes:
+            members = list(cg.nodes[k]['graph'].nodes)
+            ws = [g4.nodes[n].get('weight', 1) for n in members]
+            if sum(ws) == 0:
+                continue
+            want = sum(g4.nodes[n]['position'] * w for n, w in zip(members, ws)) / sum(ws)
+            p = cg4.nodes[k].get('position')
+            expect(p is not None and np.allclose(p, want, atol=1e-9), 'map:bead-not-weighted-average',
+                   lambda: 'embedd_cg_molecule_via_rdkit: bead %r at %r, weighted average of its atoms is %r' % (k, p, want))
     # (c) forward mapping
     rnd = random.Random(case['coords_seed'])
     t = np.array(case['shift'])
